@@ -350,23 +350,23 @@ def run_case(case):
             # data-connection) and is named as such, so that every other loss of a session is still
             # reported: the failing call belongs to the pre-checks of a transfer whose data
             # connection had been made first; the transfer is refused (451, no 1xx mark), the peer
-            # closes that data connection, and the session is lost at the *next* transfer, which
-            # reuses the passive listener (no PASV / EPSV in between).
+            # closes that data connection, and the session is lost at a following transfer that
+            # reuses the passive listener (no PASV / EPSV, nothing but such transfers in between).
             fi = s0.ops.index(first_f)
             res = first_f.get("res") or {}
             o1 = first_f["op"][-1] if isinstance(first_f["op"][-1], dict) else {}
-            nxt = s0.ops[fi + 1] if fi + 1 < len(s0.ops) else None
+            # (the dead connection is handed on: a transfer that picks it leaves the connection the
+            # peer then made for it behind, so the loss can also come a few transfers later - as
+            # long as every operation in between is a transfer over the same listener)
+            later = s0.ops[fi + 1 :]
+            nxt = later[-1] if later else None
             if (
                 first_f["op"][0] in ("get", "put")
                 and res.get("mark") is None
                 and res.get("final") == "451"
                 and o1.get("c", "before") == "before"
                 and nxt is not None
-                and nxt is s0.ops[-1]
-                and nxt["op"][0] in ("get", "put")
-                and isinstance(nxt["op"][-1], dict)
-                and "p" in nxt["op"][-1]
-                and nxt["op"][-1]["p"] is None
+                and all(r["op"][0] in ("get", "put") and isinstance(r["op"][-1], dict) and "p" in r["op"][-1] and r["op"][-1]["p"] is None for r in later)
             ):
                 subject = "listener-reuse-after-refused-transfer"
                 detail = f"backend {first_f['fs_faults'][0][0]} failed in the pre-checks of {first_f['op'][1]!r} (451, data connection already made, closed by the peer); the next transfer {nxt['op'][1]!r} over the same listener picked the dead connection: {detail}"
